@@ -206,6 +206,7 @@ def check_vname(v: str, vtype: str):
         'y', 'dy', 'source_idx', 'target_idx',
         # sympy constants / singletons
         'pi', 'I', 'E', 'S', 'Q', 'O', 'N', 'oo', 'zoo', 'nan',
+        'GoldenRatio', 'EulerGamma', 'Catalan', 'TribonacciConstant',
         # sympy function classes that look like scientific parameter names
         'beta', 'gamma', 'Beta', 'Gamma',
         # common math-function names — protect against silent shadowing
